@@ -163,14 +163,26 @@ def generate(rng, tier):
     if rmacro:
         # the text first DEFINES a reader macro and later forms USE it: only right when every top-level form is
         # read after the previous one was evaluated (the REPL clause uses a fresh REPL per cut for such texts)
-        rmacro = rng.choice(["const", "width"])
-        if rmacro == "const":
+        rmacro = rng.choice(["const", "width", "next"])
+        if rmacro == "next":
+            # a reader macro that reads its argument with the reader's own parse-one-form
+            forms.insert(0, ["raw", "(defreader zn (.parse-one-form &reader))"])
+        elif rmacro == "const":
             forms.insert(0, ["seq", "(", [["atom", "defreader", True], ["atom", "zq", True], ["str", "", "zq-value"]], [" ", " ", " ", " "], False])
         else:
             # a reader macro that consumes a fixed-width token through the reader's own getc / getn
             forms.insert(0, ["raw", "(defreader zw (.getc &reader) (.getn &reader 4))"])
         for _ in range(rng.randint(1, 3)):
-            use = ["atom", "#zq", False] if rmacro == "const" else ["rmtok", "".join(rng.choice("abcdwxyz") for _ in range(4))]
+            if rmacro == "const":
+                use = ["atom", "#zq", False]
+            elif rmacro == "width":
+                use = ["rmtok", "".join(rng.choice("abcdwxyz") for _ in range(4))]
+            else:
+                # (arguments that evaluate without error: the complete text must run cleanly at the REPL)
+                use = ["rmnext", rng.choice([["seq", "[", [["atom", "1", True], ["atom", "2", True]], [" ", " ", " "], False],
+                                             ["str", "", "arg"], ["seq", "(", [["atom", "+", True], ["atom", "1", True], ["atom", "42", True]], [" ", " ", "\n", " "], False],
+                                             ["seq", "(", [["atom", "len", True], ["str", "", "a b"]], [" ", " ", " "], False],
+                                             ["atom", "42", True]])]
             kind = rng.choice(["bare", "quoted-seq", "quoted-seq", "call"])
             if kind == "quoted-seq":
                 use = ["prefix", "'", [["seq", rng.choice(["(", "["]), [["atom", "x", True], use, ["atom", "1", True]], [" ", " ", "\n", " "], False]], ""]
@@ -251,6 +263,13 @@ class Render:
             self.stack.pop()
             self.emit(t[1][-1], "form", "raw")
             self.complete_form()
+        elif k == "rmnext":
+            # `#zn FORM`: the macro reads the next form itself, so the tag behaves like a prefix that needs one form
+            self.stack.append(["prefix", "rmnext", 1])
+            self.emit("#z", "skip", "rmnext")
+            self.emit("n", "struct")
+            self.emit(" ", "struct")
+            self.form(t[1])
         elif k == "rmtok":
             # `#zw abcd`: after the tag the macro itself keeps reading, so every cut up to the last character of the
             # token is inside an open construct
@@ -409,6 +428,7 @@ def _read_prefix(text, k, rmacro=False):
         rd = hy.HyReader()
         rd.reader_macros["zq"] = lambda reader, key: "zq-value"
         rd.reader_macros["zw"] = lambda reader, key: (reader.getc(), reader.getn(4))[1]
+        rd.reader_macros["zn"] = lambda reader, key: reader.parse_one_form()
         kw["reader"] = rd
     try:
         n = len(list(hy.read_many(st, **kw)))
@@ -461,6 +481,7 @@ def execute(desc):
         runsource_cuts.add(len(text))
         runsource_cuts.update(i + 4 for i in range(len(text)) if text.startswith("#zq", i) and i + 4 <= len(text))
         runsource_cuts.update(i + d for i in range(len(text)) if text.startswith("#zw ", i) for d in (4, 6, 8) if i + d <= len(text))
+        runsource_cuts.update(i + d for i in range(len(text)) if text.startswith("#zn ", i) for d in (3, 4, 5, 7) if i + d <= len(text))
     outs = []
     for k in range(len(text) + 1):
         c = cls[k]
